@@ -10,6 +10,14 @@ NOT_APPLICABLE = {
 
 # id -> (engine, level category, level text, level note, technique, design_ref)
 CHECKS = {
+    "C11": ("StepExec", "exploration",
+            "Seeded search over random dependency DAGs (chains, diamonds, repeated dependency entries, dependencies that never arrive) and delivery orders with duplicates — plus every delivery permutation of small DAGs — through the real Orderer processor over the real SQLite OrdererStore; safety on the output sequence (every dependency, as a set, released earlier), completeness against the least fixpoint of 'all dependencies released'.",
+            "One process()/next() call in flight at a time, next() cancelled when it parks with nothing ready (as Buffer does). An item may be released more than once after a duplicate delivery (the property does not forbid it).",
+            "deterministic simulation: seeded and exhaustive delivery orders against a fixpoint model", "§4 C11"),
+    "C12": ("StepExec", "fault_enumeration",
+            "Per generated scenario a reference execution records the store calls of one next(); the scenario is then re-executed once per cancellation point — before store call k and while store call k is in flight on the SQLite worker, for every k — each on a fresh store and thread; afterwards the remaining input is processed and the orderer drained; the multiset of outputs must cover the model's released set and the orderer must stay usable.",
+            "Cancellation points are store-call boundaries and the first Pending inside a store call (an attempt in which the worker answered before the first poll completed is repeated). Trusted: sqlx semantics of dropped futures.",
+            "deterministic simulation with fault enumeration: every await point of Orderer::next as cancellation point on real SQLite", "§4 C12"),
     "C34": ("World", "exploration",
             "Network-world simulation: a real RatchetSecret sender chain and a real DecryptionRatchet receiver connected by a datagram pool that reorders, loses, duplicates and forges generations within and beyond the windows (ooo_tolerance, max_forward in 0..8 and larger); a RatchetModel (head, windows, skipped-unused set) predicts every call: in-window fresh => exactly the sender's key and nonce, at most once per generation; otherwise the documented error.",
             "Synchronous code, no executor involved; the simulated network and choice stream are the whole machinery. Trusted: the crypto primitives.",
